@@ -14,11 +14,16 @@ CLASSES = {
     "corrupt": ["flip", "bad_utf8", "nul", "bom8", "bom16", "crlf", "mixed_eol", "lone_cr", "ws_only", "binary", "escape_in_string",
                 "odd_separators", "odd_separators", "non_ascii"],
     "grammar": ["del_line", "dup_line", "del_token", "dup_token", "unbalance", "drop_close", "dedent",
-                "swap_ext", "shebang", "del_char", "dup_char", "del_punct", "stray_line", "truncate_line", "num_mangle", "num_mangle", "run_small", "run_small", "odd_directive", "odd_directive"],
+                "swap_ext", "shebang", "coding_cookie", "coding_cookie", "del_char", "dup_char", "del_punct", "stray_line", "truncate_line", "num_mangle", "num_mangle", "run_small", "run_small", "odd_directive", "odd_directive"],
     "blowup": ["nest", "chain", "long_line", "many_funcs", "deep_parens", "deep_list", "long_run", "long_run", "huge_number"],
 }
 KIND_CLASS = {k: c for c, ks in CLASSES.items() for k in ks}
 EXTS = [".py", ".ts", ".tsx", ".js", ".jsx", ".rs", ".java", ".go", ".txt", ".md", "", ".PY", ".json"]
+
+
+COOKIE_CODECS = [b"utf-8", b"latin-1", b"ascii", b"cp1252", b"utf-8-sig", b"utf-16", b"utf-16-le", b"utf-32", b"utf-7", b"rot13",
+                 b"hex", b"base64", b"zlib", b"bz2", b"uu", b"quopri", b"undefined", b"punycode", b"idna", b"unicode_escape",
+                 b"raw_unicode_escape", b"mbcs", b"no-such-codec", b"UTF8", b"iso-8859-15", b"shift_jis", b"cp037", b""]
 
 
 OPEN_CONSTRUCTS = {
@@ -70,6 +75,8 @@ def draw_fault(t, data: bytes, lang: str, allow_blowup: bool = True, force_blowu
         p = [t.draw(P, "fault.pos"), t.draw(2, "fault.early")]
     elif kind == "shebang":
         p = [t.draw(8, "fault.variant")]
+    elif kind == "coding_cookie":
+        p = [t.draw(len(COOKIE_CODECS), "fault.codec"), t.draw(6, "fault.form")]
     elif kind in ("del_line", "dup_line", "del_token", "dup_token", "dedent"):
         p = [t.draw(P, "fault.idx"), 1 + t.draw(3, "fault.cnt")]
     elif kind == "swap_ext":
@@ -304,6 +311,16 @@ def apply(f: dict, data: bytes, lang: str) -> bytes:
         first = [b"#!/usr/bin/env python3", b"#!/usr/bin/env python3", b"#!/usr/bin/python", b"#!", b"#! ", b"#!\r",
                  b"#!/bin/sh", b"#"][(p[0] if p else 0) % 8]
         return first + b"\n" + data
+    if k == "coding_cookie":
+        # a source-encoding declaration (PEP 263 and editor variants) in line 1 or 2; the bytes stay as they are
+        codec = COOKIE_CODECS[p[0] % len(COOKIE_CODECS)]
+        lead = b"//" if lang in ("ts", "typescript", "javascript", "js", "rust", "rs") else b"#"
+        form = p[1] % 6
+        line = [lead + b" -*- coding: " + codec + b" -*-", lead + b" coding=" + codec, lead + b" vim: set fileencoding=" + codec + b" :",
+                lead + b" -*- coding: " + codec + b" -*-", lead + b"coding:" + codec, lead + b" This Python file uses the following encoding: " + codec][form]
+        if form == 3:
+            return b"#!/usr/bin/env python3\n" + line + b"\n" + data
+        return line + b"\n" + data
     if k == "escape_in_string":
         # the content of one short string literal becomes an escape sequence (still valid source)
         esc = [b"\\ud800", b"\\udfff\\ud800", b"\\x00", b"\\U0010ffff", b"\\N{BULLET}", b"\\\\", b"\\u200b", b"\\xff\\xfe",
